@@ -444,13 +444,35 @@ def rule_parse(rep, idx):
         rep.add('RA', key, same and is_num and not ub, pos(lexf0.node) + ' hexasm::Lexer::readToken',
                 'the lexer delivers the literal unchanged as a NUMBER token' if same and is_num and not ub else
                 'literal n in [%d,%d]: the lexer delivers %r (token %r)%s' % (lo, hi, v, tk, '; UB: %s' % ub if ub else ''))
-    # InstrImm stores the parsed int unchanged
+    # InstrImm stores the parsed int unchanged: every user constructor is run on a symbolic operand and getValue() must hand it back
+    from . import c05
     rec = idx.record('hexasm::InstrImm')
+    toks_ = idx.enum('hexasm::Token')
     for c in [c for c in rec.ctors if not c.node.get('isImplicit')]:
-        good = False
-        for ini in c.inits:
-            if (ini.get('anyInit') or {}).get('name') == 'immValue':
-                src = cast.decl_ref(children(ini)[0]) if children(ini) else None
-                good = any(p['id'] == src and 'int' == qt(p) for p in c.params)
-        rep.add('RA', 'InstrImm-ctor(%d params):stores-int-unchanged' % len(c.params), good, pos(c.node) + ' ' + c.qname,
-                'immValue is initialised directly from the int parameter' if good else 'immValue is not the unmodified int parameter')
+        key = 'InstrImm-ctor(%d params):stores-int-unchanged' % len(c.params)
+        B = c05.Builder(idx)
+        V = IV(32, True, INT_MIN, INT_MAX, None, 'input', ({'V': 1}, 0))
+        args = []
+        for prm in c.params:
+            t = qt(prm)
+            if 'Location' in t:
+                args.append(B.I.construct('hexutil::Location', [const(64, False, 0), const(64, False, 0)]))
+            elif 'Token' in t:
+                args.append(const(32, True, toks_['LDAC']))
+            elif t in ('int', 'const int'):
+                args.append(V)
+            else:
+                args = None
+                break
+        if args is None:
+            rep.undecided('RA', key, 'constructor parameters not recognised: %s' % [qt(p_) for p_ in c.params], pos(c.node) + ' ' + c.qname)
+            continue
+        try:
+            obj = B.I._construct_with('hexasm::InstrImm', c, args, Obj('hexasm::InstrImm', {}, 'imm'))
+            gv = B.I.invoke(B.I.resolve_method(obj, 'getValue', None), obj, [])
+        except (NeedSplit, AnalysisBroken, Thrown) as e:
+            rep.undecided('RA', key, 'constructor not interpreted: %s' % e, pos(c.node) + ' ' + c.qname)
+            continue
+        good = isinstance(gv, IV) and gv.aff is not None and gv.aff[0] == {'V': 1} and gv.aff[1] == 0
+        rep.add('RA', key, good, pos(c.node) + ' ' + c.qname,
+                'getValue() returns the operand the constructor was given' if good else 'getValue() returns %r for operand V' % (gv,))
